@@ -92,3 +92,6 @@ emit("F12b-typednil-invoke","C14","C14.panic",h,"Invoke of a typed-nil function 
 h=H(); h.provide(0,[],["V0"]); h.decorate(0,["V0"],["V0"],inv="typednil"); h.invoke(0,["V0"])
 emit("F12c-typednil-decorate","C14","C14.invalid-accepted",h,"typed-nil decorator accepted by Decorate")
 print("ok")
+# F13: a key that only a decorator produces: the consumer's shallow check depended on whether the decorator had already run
+h=H(); h.decorate(0,[],["V2"]); h.provide(0,["V2"],["V1"]); h.invoke(0,["V1"])
+emit("F13-decorated-unprovided-key","C16","C04.should-succeed",h,"Decorate(func() V2); Provide(func(V2) V1); Invoke(func(V1)) fails with a missing type unless some earlier Invoke happened to run the decorator: outcome depends on operation order")
